@@ -85,7 +85,8 @@ def read_package(data):
     infos = {i.filename: i for i in z.infolist()}
     man = None
     if 'META-INF/manifest.xml' in members:
-        man = parse_manifest(members['META-INF/manifest.xml'])
+        try: man = parse_manifest(members['META-INF/manifest.xml'])
+        except Exception: man = None
     return {'order': order, 'members': members, 'infos': infos, 'manifest': man, 'raw': data}
 
 def parse_manifest(data):
